@@ -41,7 +41,12 @@ def inspect(value: Any) -> str:
 def inspect_recursive(value: Any, seen_values: list) -> str:
     if value is None or value is Undefined or isinstance(value, (bool, float, complex)):
         return repr(value)
-    if isinstance(value, (int, str, bytes, bytearray)):
+    if isinstance(value, int):
+        try:
+            return trunc_str(repr(value))
+        except ValueError:  # exceeds the limit for integer string conversion
+            return trunc_str(hex(value))
+    if isinstance(value, (str, bytes, bytearray)):
         return trunc_str(repr(value))
     if len(seen_values) < max_recursive_depth and value not in seen_values:
         # check if we have a custom inspect method
